@@ -227,6 +227,14 @@ def work(item):
             rec['els'].append(dict(z=z, bad=bad, hash=hashlib.sha1(jdump(base['elements'][z]).encode()).hexdigest()))
             out['reqs'] += [(method, label, z, a, bq) for a, bq in rq]
         out['cases'].append(rec)
+        # the caller does what it likes with what it was given (say, writes normalisation constants over the unit coefficients): later
+        # results - of this process, for any basis - must not show it
+        for _, r in results:
+            if isinstance(r, dict):
+                for el in r['elements'].values():
+                    for sh in el.get('electron_shells', []):
+                        sh['coefficients'][0][0] = '7.7'
+                        sh['exponents'][0] = '0.123'
     return out
 
 
